@@ -500,6 +500,11 @@ func sflowMain(args mon.Args, prop string) {
 			}
 		}
 		filters = append(filters, []uint32{1, 1}, []uint32{2, 2, 1}, []uint32{0}, []uint32{4095}, []uint32{1, 2, 3, 4, 7})
+		// entries that are not a supported type but equal one in their low 8/12/16 bits, or are an enterprise
+		// format (enterprise<<12 | format): they must remove nothing that is decoded
+		filters = append(filters, []uint32{257}, []uint32{258, 513}, []uint32{4096}, []uint32{4097}, []uint32{4098}, []uint32{4099, 4100},
+			[]uint32{65537}, []uint32{65538}, []uint32{1 << 16}, []uint32{0x00fff001}, []uint32{0x00fff002}, []uint32{0x80000001}, []uint32{0xffffffff},
+			[]uint32{5, 8194}, []uint32{1, 65538}, []uint32{2, 4097}, []uint32{1<<32 - 4096 + 1, 1<<32 - 4096 + 2})
 	}
 	n := run.Pick(20000, 1000000)
 	if prop == "C18" {
@@ -640,7 +645,7 @@ func sflowMain(args mon.Args, prop string) {
 	}
 	if prop == "C18" {
 		run.Set("filters", len(filters))
-		run.SetRule("C07 generator (no enterprise samples) × filter lists: all subsets of {1,2,3,4,7} up to size 3 in both orders, duplicates, 0, 4095, all five; each datagram meets a rotating third of the filters. Oracle: SFDecode(D,F) equals the model with the samples whose type is in F removed (reference) and SFDecode(D,[]) equals SFDecode(D,nil) (metamorphic). distinct = (datagram shape, filter); non-trivial = datagram has at least one supported sample")
+		run.SetRule("C07 generator (no enterprise samples) × filter lists: all subsets of {1,2,3,4,7} up to size 3 in both orders, duplicates, 0, 4095, all five, and 17 lists with entries that alias a supported type in their low 8/12/16 bits (257, 4097, 65537, 0x00fff001, 0x80000001, ...); each datagram meets a rotating third of the filters. Oracle: SFDecode(D,F) equals the model with the samples whose type is in F removed (reference) and SFDecode(D,[]) equals SFDecode(D,nil) (metamorphic). distinct = (datagram shape, filter); non-trivial = datagram has at least one supported sample")
 		if run.Counter("cases_with_a_kept_sample_after_a_filtered_one") == 0 {
 			run.HarnessError("no case had a kept sample after a filtered one: the filter's effect on its neighbours was never observed")
 		}
